@@ -85,6 +85,8 @@ def content_row(m, kind, n, seed, with_key=False):
         return [A.comment_cell(n, i, seed) for i in range(w)]
     if kind == 'b':
         return [A.BAR(n * 5 + seed)] * w
+    if kind == 'e':     # a plain numbered barline: two of them in a row are an empty measure between two barlines of the SAME type
+        return [A.V(f'={n + 1}', 'BARLINES', '=')] * w
     if kind == 'k':     # a clef on every kern-like column (agnostic encodings need a clef in force)
         return [A.V(A.CLEFS[(n + i + seed) % len(A.CLEFS)], 'CLEF') if types[i] in A.KERN_LIKE else A.NULL_I for i in range(w)]
     if kind in 'KTCMDN':   # K key signature / T time signature on every kern-like column; C clef / M time signature on the first one only; D clef / N key signature on the last one only
@@ -131,7 +133,7 @@ def seq_model(headers, seq, seed, cap=6, pre=(), with_key=False, close=True):
         w = m.width()
         if w == 0:
             return None
-        if s[0] in 'dicbznkKTCMDN':
+        if s[0] in 'dicbeznkKTCMDN':
             m.add(content_row(m, s[0], n, seed, with_key))
         elif s == 'g':
             m.add_g(A.GCOMM[(n + seed) % len(A.GCOMM)])
